@@ -102,7 +102,7 @@ def discharge(e, conds, mk_cex):
     r, m = e.refute(goal)
     if r == "unsat":
         out = {"status": "ok", "obligations": len(names)}
-        if VALIDATE[0] is not None and (sum(e.trace) + len(e.trace)) % 11 == 0:
+        if VALIDATE[0] is not None and __import__("zlib").crc32(bytes(e.trace)) % 11 == 0:
             # validation against the implementation: a concrete instance of this path must satisfy the property on the
             # unmodified package as well (judged by the independent concrete oracle of the replay)
             mm = e.model()
@@ -116,6 +116,7 @@ def discharge(e, conds, mk_cex):
                     finally:
                         _arm(e.path_wall_s)
                     out["validated_against_impl"] = not bad
+                    out["instance"] = cc
                     if bad:
                         # the concrete instance of a path whose obligations were discharged violates the property on the real
                         # code: the symbolic run and the implementation disagree (the code left the modelled fragment, or a
@@ -176,7 +177,7 @@ def bmc_harness(core, N, mode, with_init, oblig, delivery="list", falsy=False):
         r = discharge(e, conds, lambda m: cex_from_model(m, N, P, mode, with_init, {"falsy": True} if falsy else None))
         r["tokens"] = len(toks)
         r["shape"] = [(int(s) if isinstance(s, int) else str(s), int(en) if isinstance(en, int) else str(en)) for _, s, en in toks][:6]
-        if r["status"] == "ok" and delivery == "list" and sum(e.trace) % 5 == 0:
+        if r["status"] == "ok" and delivery == "list" and __import__("zlib").crc32(bytes(e.trace)) % 5 == 0:
             # validation of the engine against the implementation: a concrete instance of this path is run on the unmodified
             # package and must give the token boundaries the symbolic run produced
             m = e.model()
